@@ -769,12 +769,6 @@ def run(ctx):
         "with a weak hash function to force collision chains and chain splits on growth",
         "the skip list's coin flips come from a seeded source through hook H2 so that a history is reproducible",
     ]
-    if vlib.REPO != "/repo":
-        # runs against a scratch tree (mutation self-test) keep their files apart from the normal runs
-        ctx.out = ctx.out + "-alt"
-        import shutil
-        shutil.rmtree(ctx.out, ignore_errors=True)
-        os.makedirs(ctx.out)
     if ctx.replay:
         run_replay(ctx, exe)
         return
